@@ -13,6 +13,7 @@ is WITH `repo-patches/fix-C16-k256-recover-high-s.diff`; `k256RecoverPre` is the
 fix.  The curve is a parameter `E` with the group laws `CurveLaws E` as hypothesis.
 -/
 import FuelVerif.Lemmas.EcdsaSign
+import FuelVerif.Lemmas.ToyCurve
 namespace FuelVerif.Ecdsa
 open FuelVerif
 
@@ -172,5 +173,54 @@ theorem sign_agree (L : CurveLaws E) (d k : Nat) (msg : Bytes)
         unfold normalizeS sNorm; split <;> rfl
       simp only [hn, L.findRecid_sign true d k z hk0 hk hd0 hd hx hr0 hs0]
       cases (yOdd E (E.mulG k) ^^ isHigh E.n (sVal E.n d k z (E.toXY (E.mulG k)).1)) <;> simp
+
+/-! ### non-vacuity: the lawful toy curve `y² = x³ + 7` over F₄₃ (order 31), concrete inputs -/
+section Examples
+open FuelVerif.Ecdsa.Toy
+
+/-- `.ok` / `.error` as a Boolean, so that concrete runs can be checked by evaluation -/
+def isOk {ε α : Type} : Except ε α → Bool
+  | .ok _ => true
+  | .error _ => false
+
+/-- `r = 2 = x(G)`, `s = 20 > 31/2`, recovery bit 0 -/
+def exSigHigh : Bytes := compact 2 20
+/-- `r = 2`, `s = 11 ≤ 31/2` -/
+def exSigLow : Bytes := compact 2 11
+def exMsg : Bytes := natBE 32 5
+
+-- the hypotheses of every theorem above are satisfiable
+example : CurveLaws toy := toy_laws
+-- F6 in miniature: a high-s signature in scalar range that the std backend recovers and the unfixed k256 wrapper rejects
+example : highS toy exSigHigh ∧ scalarsOk toy exSigHigh := by decide +kernel
+example : isOk (secpRecover toy exSigHigh exMsg) = true := by decide +kernel
+example : isOk (k256RecoverPre toy exSigHigh exMsg) = false := by decide +kernel
+example : ¬ BackendsAgree (k256RecoverPre toy) (secpRecover toy) := by
+  intro h
+  have := congrArg isOk (h exSigHigh exMsg)
+  revert this
+  decide +kernel
+-- with the fix they agree (instance of `recover_agree`), on a key that is really recovered
+example : k256Recover toy exSigHigh exMsg = secpRecover toy exSigHigh exMsg := recover_agree toy_laws _ _
+example : isOk (k256Recover toy exSigHigh exMsg) = true := by decide +kernel
+-- low-s: all three wrappers recover
+example : isOk (k256RecoverPre toy exSigLow exMsg) = true ∧ isOk (secpRecover toy exSigLow exMsg) = true := by
+  decide +kernel
+-- verification: a recovered key verifies the low-s signature on both backends; the error variants differ
+-- only when both parts are unparsable
+example : isOk (secpVerify toy exSigLow (publicKey toy 7) exMsg) = isOk (k256Verify toy exSigLow (publicKey toy 7) exMsg) :=
+  by decide +kernel
+example : k256Verify toy (compact 31 31) (compact 99 99) exMsg = .error .InvalidPublicKey ∧
+    secpVerify toy (compact 31 31) (compact 99 99) exMsg = .error .InvalidSignature := by
+  constructor <;> decide +kernel
+-- signing: key 7, nonce 2 (x(2G) = 7 < 31): both wrappers produce a signature, the same one
+example : isOk (secpSign toy 7 2 exMsg) = true ∧ isOk (k256Sign toy 7 2 exMsg) = true := by decide +kernel
+example : k256Sign toy 7 2 exMsg = secpSign toy 7 2 exMsg :=
+  sign_agree toy_laws 7 2 exMsg (by decide) (by decide) (by decide) (by decide) (by decide +kernel)
+-- nonce 3: x(3G) = 35 ≥ 31, the reduced-x case in which both wrappers panic (excluded by `hx`)
+example : secpSign toy 7 3 exMsg = .error .ReducedX := by decide +kernel
+example : isOk (k256Sign toy 7 3 exMsg) = false := by decide +kernel
+
+end Examples
 
 end FuelVerif.Ecdsa
